@@ -491,8 +491,8 @@ def needs_space(a, b):
     x, y = a[-1], b[0]
     if _WORDCH.match(x) and _WORDCH.match(y):
         return True
-    if x.isdigit() and y == ".":
-        return True
+    if (x.isdigit() or a[0].isdigit()) and y == ".":
+        return True             # a numeral followed by '.' would read as a (hex) float
     if x == "." and (y.isdigit() or y == "."):
         return True
     risky = "-.[=<>~/:"
@@ -644,24 +644,39 @@ def judge(exp, o):
     return None
 
 
-def run_spec(progs, cfg, workers=None, timeout=3000):
-    """progs: list of (id, ast). Returns (dict id -> TLC emission, TLCResult)"""
-    path = os.path.join(scratch(), "asts-%d.ndjson" % len(os.listdir(scratch())))
-    with open(path, "w") as f:
-        for pid, ast in progs:
-            d = flatten(ast)
-            d["id"] = pid
-            f.write(json.dumps(d, separators=(",", ":")) + "\n")
+class _Tot:
+    distinct = 0
+    generated = 0
+    wall = 0.0
+    stdout = ""
+
+
+def run_spec(progs, cfg, workers=None, timeout=3000, batch=4000):
+    """progs: list of (id, ast). Returns (dict id -> TLC emission, totals).  TLC keeps the whole program table and a
+    breadth-first frontier of one state per program in memory, so the programs are judged in batches."""
     res_by_id = {}
+    tot = _Tot()
+    for b0 in range(0, len(progs), batch):
+        part = progs[b0:b0 + batch]
+        path = os.path.join(scratch(), "asts-%d.ndjson" % b0)
+        with open(path, "w") as f:
+            for pid, ast in part:
+                d = flatten(ast)
+                d["id"] = pid
+                f.write(json.dumps(d, separators=(",", ":")) + "\n")
 
-    def on_line(v):
-        res_by_id[v["id"]] = v
+        def on_line(v):
+            res_by_id[v["id"]] = v
 
-    res = run_tlc("LuaCore", cfg, workers=workers, timeout=timeout, env={"ASTFILE": path}, on_line=on_line)
-    os.unlink(path)
-    if res.violation:
-        raise Infra("LuaCore design-level check failed: %s\n%s" % (res.violation, res.stdout[-3000:]))
-    return res_by_id, res
+        res = run_tlc("LuaCore", cfg, workers=workers, timeout=timeout, env={"ASTFILE": path}, on_line=on_line, heap="6g")
+        os.unlink(path)
+        if res.violation:
+            raise Infra("LuaCore design-level check failed: %s\n%s" % (res.violation, res.stdout[-3000:]))
+        tot.distinct += res.distinct
+        tot.generated += res.generated
+        tot.wall += res.wall
+        tot.stdout = res.stdout
+    return res_by_id, tot
 
 
 # --------------------------------------------------------------------------
@@ -1193,6 +1208,171 @@ def fam_errors():
     return out
 
 
+def fam_scalars():
+    """floor division / modulo signs, string order, string <-> number coercions: operand values x operator"""
+    out = []
+    for a, b, op, lit in itertools.product([-7, -1, 0, 1, 6, 7], [-3, -2, 2, 3], ["//", "%"], [False, True]):
+        e = Bin(op, Int(a), Int(b)) if lit else Bin(op, V("a"), V("b"))
+        out.append(("scalars", Block([Local(["a", "b"], [Int(a), Int(b)]), Emit(e, Bin("-", V("a"), MUL(Paren(Bin("//", V("a"), V("b"))), V("b"))))])))
+    strs = ["", "a", "ab", "b", "Z", "10", "9", "a b"]
+    for x, y in itertools.product(strs, repeat=2):
+        out.append(("scalars", Block([Local(["x", "y"], [Str(x), Str(y)]),
+                                      Emit(Bin("<", V("x"), V("y")), Bin("<=", V("x"), V("y")), Bin(">", V("x"), V("y")), Bin(">=", V("x"), V("y")),
+                                           EQ(V("x"), V("y")), Bin("..", V("x"), V("y")), LenOp(Bin("..", V("x"), V("y"))))])))
+    vals = [lambda: Int(12), lambda: Str("12"), lambda: Str("007"), lambda: Int(0), lambda: Int(-3)]
+    for (i, x), (j, y), op in itertools.product(enumerate(vals), enumerate(vals), ["+", "-", "*", "//", "%", "..", "==", "<"]):
+        if op in ("//", "%") and j == 3:
+            continue
+        if op == "<" and (i in (1, 2)) != (j in (1, 2)):
+            body = [Emit(Call(V("pcall"), Func([], [Return(Bin(op, V("x"), V("y")))])))]
+        else:
+            body = [Emit(Bin(op, V("x"), V("y")), Bin(op, x(), y()))]
+        out.append(("scalars", Block([Local(["x", "y"], [x(), y()])] + body + [Emit(Neg(V("x")), Call(V("tostring"), V("y")), Call(V("type"), V("x")))])))
+    return out
+
+
+def fam_pressure():
+    """many live variables, arguments, results and constants in one function (register and constant allocation)"""
+    out = []
+    for n in (10, 50, 120, 190):
+        names = ["a%d" % j for j in range(1, n + 1)]
+        tot = lambda: _sum([V(x) for x in names])
+        # all declared at once, summed, some captured and changed through closures
+        out.append(("pressure", Block([Local(names, [Int(j) for j in range(1, n + 1)]),
+                                       LocalFunc("bump", [], [Assign([V(names[0]), V(names[-1])], [ADD(V(names[-1]), Int(1)), ADD(V(names[0]), Int(1))])]),
+                                       Emit(tot()), CallStat(Call(V("bump"))), Emit(tot(), V(names[0]), V(names[-1]), V(names[n // 2]))])))
+        # one per statement, in nested blocks, a closure over each fifth
+        body = [Emit(_sum([V("b%d" % j) for j in range(5, n + 1, 5)]), Call(Index(V("fs"), Int(1))), Call(Index(V("fs"), LenOp(V("fs")))))]
+        for j in range(n, 0, -1):
+            st = [Local(["b%d" % j], [ADD(Int(j), V("b%d" % (j - 1))) if j > 1 else Int(1)])]
+            if j % 5 == 0:
+                st.append(PUSH("fs", Func([], [Assign([V("b%d" % j)], [ADD(V("b%d" % j), Int(1))]), Return(V("b%d" % j))])))
+            body = st + ([Do(body)] if j % 7 == 0 else body)
+        if n <= 120:
+            out.append(("pressure", Block([Local(["fs"], [Table()])] + body)))
+        # n arguments, n results
+        m = min(n, 100)
+        ps = ["p%d" % j for j in range(1, m + 1)]
+        out.append(("pressure", Block([LocalFunc("rev", ps, [Return(*[V(x) for x in reversed(ps)])]),
+                                       LocalFunc("cnt", [], [Return(Call(V("select"), Str("#"), Va()), Paren(Va()), Paren(Call(V("select"), Int(-1), Va())))], True),
+                                       Emit(Call(V("cnt"), Call(V("rev"), *[Int(j) for j in range(1, m + 1)]))),
+                                       Emit(Call(V("cnt"), Call(V("rev"), Int(1), Int(2)))),
+                                       Local(["t"], [Table(*([Int(j) for j in range(1, m + 1)] + [Call(V("rev"), Int(7), Int(8))]))]),
+                                       Emit(LenOp(Table(*[Int(j) for j in range(1, m + 1)])), Index(V("t"), Int(m)), Index(V("t"), Int(m + 1)), Index(V("t"), Int(2 * m)))])))
+    # more than 256 distinct constants in one function
+    for n in (260, 400):
+        out.append(("pressure", Block([Local(["t"], [Table(*[Str("c%d" % j) for j in range(1, n + 1)])]),
+                                       Emit(LenOp(V("t")), Index(V("t"), Int(1)), Index(V("t"), Int(257)), Index(V("t"), Int(n)), Int(1000 + n), Str("c%d" % n))])))
+        out.append(("pressure", Block([Local(["t"], [Table(*[Named("k%d" % j, Int(1000 + j)) for j in range(1, n + 1)])]),
+                                       Emit(Dot(V("t"), "k1"), Dot(V("t"), "k256"), Dot(V("t"), "k257"), Dot(V("t"), "k%d" % n))])))
+    return out
+
+
+def _sum(es):
+    e = es[0]
+    for x in es[1:]:
+        e = ADD(e, x)
+    return e
+
+
+def fam_misc():
+    """hand-written programs for corners the other families do not reach"""
+    S = Str
+    P = []
+    # the condition of repeat-until sees the body's locals, also through closures created in the body
+    P.append([Local(["fs", "i"], [Table(), Int(0)]),
+              Repeat([Assign([V("i")], [ADD(V("i"), Int(1))]), Local(["x"], [MUL(V("i"), Int(10))]), PUSH("fs", Func([], [Assign([V("x")], [ADD(V("x"), Int(1))]), Return(V("x"))]))],
+                     Bin(">=", Call(Func([], [Return(V("x"))])), Int(30))),
+              ForIn(["_", "f"], [Call(V("ipairs"), V("fs"))], [Emit(Call(V("f")))]), ForIn(["_", "f"], [Call(V("ipairs"), V("fs"))], [Emit(Call(V("f")))])])
+    # shadowing: each declaration is a new variable, the initialiser sees the old one
+    P.append([Local(["x"], [Int(1)]), LocalFunc("g1", [], [Return(V("x"))]), Local(["x"], [ADD(V("x"), Int(1))]), LocalFunc("g2", [], [Return(V("x"))]),
+              Do([Local(["x"], [ADD(V("x"), Int(10))]), Emit(V("x"), Call(V("g1")), Call(V("g2"))), Assign([V("x")], [Int(0)])]),
+              Assign([V("x")], [ADD(V("x"), Int(100))]), Emit(V("x"), Call(V("g1")), Call(V("g2"))),
+              Local(["x", "x"], [Int(5), Int(6)]), Emit(V("x"))])
+    # local function sees itself, local f = function does not
+    P.append([Local(["f"], [Func([], [Return(S("outer"))])]),
+              Do([Local(["f"], [Func(["n"], [If(EQ(V("n"), Int(0)), [Return(S("inner"))]), Return(Call(V("f"), Int(0)))])]), Emit(Call(V("f"), Int(1)))]),
+              Do([LocalFunc("f", ["n"], [If(EQ(V("n"), Int(0)), [Return(S("inner"))]), Return(Call(V("f"), Int(0)))]), Emit(Call(V("f"), Int(1)))])])
+    # three levels of closures sharing and changing one variable
+    P.append([LocalFunc("mk", [], [Local(["c"], [Int(0)]),
+                                   Return(Func([], [Assign([V("c")], [ADD(V("c"), Int(1))]), Return(Func([], [Assign([V("c")], [ADD(V("c"), Int(10))]), Return(Func([], [Return(V("c"))]))]))]),
+                                          Func([], [Return(V("c"))]))]),
+              Local(["a", "geta"], [Call(V("mk"))]), Local(["b", "getb"], [Call(V("mk"))]),
+              Local(["a2"], [Call(V("a"))]), Local(["a3"], [Call(V("a2"))]), CallStat(Call(V("a"))),
+              Emit(Call(V("a3")), Call(V("geta")), Call(V("getb")), Call(Call(Call(V("b")))))])
+    # chained method calls and calls on call results
+    P.append([Local(["o"], [Table(Named("n", Int(0)))]),
+              Assign([Dot(V("o"), "inc")], [Func(["self", "d"], [Assign([Dot(V("self"), "n")], [ADD(Dot(V("self"), "n"), Or(V("d"), Int(1)))]), Return(V("self"), S("x"))])]),
+              Assign([Dot(V("o"), "get")], [Func(["self"], [Return(Dot(V("self"), "n"))])]),
+              Emit(Method(Method(Method(Method(V("o"), "inc"), "inc", Int(5)), "inc"), "get")),
+              Emit(Method(Paren(Method(V("o"), "inc")), "get"), Dot(Method(V("o"), "inc", Int(100)), "n"), Index(Table(Method(V("o"), "inc")), Int(2)))])
+    # functions as arguments and results, immediately called function expressions
+    P.append([LocalFunc("compose", ["f", "g"], [Return(Func([], [Return(Call(V("f"), Call(V("g"), Va())))], True))]),
+              LocalFunc("dbl", ["x", "y"], [Return(MUL(V("x"), Int(2)), V("y"))]), LocalFunc("pair", ["x"], [Return(V("x"), ADD(V("x"), Int(1)))]),
+              Emit(Call(Call(V("compose"), V("dbl"), V("pair")), Int(5))), Emit(Call(Func(["a"], [Return(V("a"), Va())], True), Int(1), Int(2), Int(3))),
+              Emit(Call(Paren(Func([], [Return(Int(9))]))))])
+    # the main chunk is variadic with no arguments; return at the end of the chunk
+    P.append([Emit(Call(V("select"), S("#"), Va()), Va()), Local(["a"], [Va()]), Emit(V("a"), Table(Va())), Return(Va())])
+    P.append([Emit(S("x")), Do([Return(Int(1), S("two"), Nil(), Table(), FALSE())])])
+    P.append([Local(["t"], [Table()]), Return(V("t"), V("t"), Table(), Func([], []), V("emit"), V("emit"))])
+    # globals: free names are fields of the environment table
+    P.append([Emit(V("undefinedname")), Assign([V("G1"), V("G2")], [Int(1), Int(2)]),
+              LocalFunc("f", [], [Assign([V("G1")], [ADD(V("G1"), V("G2"))]), Local(["G2"], [Int(50)]), Assign([V("G2")], [Int(60)]), Return(V("G2"))]),
+              Emit(Call(V("f")), V("G1"), V("G2")), Assign([V("G1")], [Nil()]), Emit(V("G1"))])
+    # goto: backward jumps renew locals, nested loops left with one jump, labels in nested blocks with the same name
+    P.append([Local(["fs", "n"], [Table(), Int(0)]),
+              Label("again"), Local(["x"], [MUL(V("n"), Int(2))]), PUSH("fs", Func([], [Return(V("x"))])), Assign([V("n")], [ADD(V("n"), Int(1))]),
+              If(Bin("<", V("n"), Int(3)), [Goto("again")]),
+              Emit(Call(Index(V("fs"), Int(1))), Call(Index(V("fs"), Int(2))), Call(Index(V("fs"), Int(3))))])
+    P.append([ForNum("i", Int(1), Int(3), None, [ForNum("j", Int(1), Int(3), None, [If(EQ(MUL(V("i"), V("j")), Int(4)), [Goto("done")]), Emit(V("i"), V("j"))])]),
+              Label("done"), Emit(S("done")),
+              Do([Goto("l"), Emit(S("skipped")), Label("l"), Emit(S("l1"))]), Do([Goto("l"), Emit(S("skipped")), Label("l"), Emit(S("l2"))])])
+    # long chains: right associative concatenation, comparisons and logic
+    P.append([Local(["a", "b", "c"], [S("x"), Int(1), S("z")]),
+              Emit(Bin("..", V("a"), Bin("..", V("b"), Bin("..", V("c"), Bin("..", V("a"), Bin("..", Int(2), V("c")))))),
+                   Bin("..", Paren(Bin("..", V("a"), V("b"))), V("c")), Bin("..", Bin("..", Int(1), Int(2)), Int(3))),
+              Emit(EQ(Bin("<", Int(1), Int(2)), TRUE()), Not(EQ(Nil(), FALSE())), Or(And(Int(1), Nil()), Or(FALSE(), S("d"))),
+                   And(Or(Nil(), Int(2)), Or(Int(3), Int(4))), Not(Not(Nil())), Bin("-", Neg(Neg(Int(3))), Neg(Int(2))))])
+    # if / elseif chains
+    P.append([LocalFunc("cls", ["n"], [If(Bin("<", V("n"), Int(0)), [Return(S("neg"))], EQ(V("n"), Int(0)), [Return(S("zero"))], Bin("<", V("n"), Int(10)), [Return(S("small"))],
+                                          Bin("<", V("n"), Int(100)), [Return(S("medium"))], [Return(S("large"))])]),
+              Emit(Call(V("cls"), Int(-5)), Call(V("cls"), Int(0)), Call(V("cls"), Int(5)), Call(V("cls"), Int(50)), Call(V("cls"), Int(500)))])
+    # assignment to fields of call results, nested tables
+    P.append([Local(["t"], [Table(Named("a", Table(Named("b", Table(Named("c", Int(1)))))))]), LocalFunc("get", [], [Return(Dot(V("t"), "a"))]),
+              Assign([Dot(Dot(Call(V("get")), "b"), "c")], [Int(2)]), Assign([Index(Dot(Call(V("get")), "b"), S("d"))], [Dot(Dot(Dot(V("t"), "a"), "b"), "c")]),
+              Emit(Dot(Dot(Dot(V("t"), "a"), "b"), "c"), Dot(Dot(Dot(V("t"), "a"), "b"), "d"), EQ(Call(V("get")), Dot(V("t"), "a")))])
+    # ipairs stops at the first nil and respects __index
+    P.append([Local(["t"], [Table(Int(1), Int(2), Nil(), Int(4))]), ForIn(["i", "v"], [Call(V("ipairs"), V("t"))], [Emit(V("i"), V("v"))]),
+              Local(["p"], [Call(V("setmetatable"), Table(), Table(Named("__index", Func(["_", "k"], [If(Bin("<=", V("k"), Int(3)), [Return(MUL(V("k"), V("k")))])]))))]),
+              ForIn(["i", "v"], [Call(V("ipairs"), V("p"))], [Emit(V("i"), V("v"))])])
+    # break as the last statement of nested blocks; while with a complex condition
+    P.append([Local(["i"], [Int(0)]), While(TRUE(), [Assign([V("i")], [ADD(V("i"), Int(1))]), If(Bin(">", V("i"), Int(2)), [Do([Break()])]), Emit(V("i"))]),
+              While(And(Bin("<", V("i"), Int(6)), Not(EQ(V("i"), Int(5)))), [Assign([V("i")], [ADD(V("i"), Int(1))])]), Emit(V("i")),
+              Repeat([Local(["i"], [Int(99)]), Break()], FALSE()), Emit(V("i"))])
+    # select with negative indices, type and tostring of every kind of value
+    P.append([Emit(Call(V("select"), Int(-1), Int(1), Int(2), Int(3)), Paren(Call(V("select"), Int(-2), Int(1), Int(2), Int(3))), Call(V("select"), Int(2), S("a"), S("b"), S("c"))),
+              Emit(Call(V("type"), Nil()), Call(V("type"), Int(1)), Call(V("type"), S("")), Call(V("type"), Table()), Call(V("type"), V("emit")), Call(V("type"), Func([], [])),
+                   Call(V("type"), TRUE()), Call(V("type"), Call(V("type"), Nil())))])
+    # rawequal / rawget / rawset / rawlen bypass metamethods
+    P.append([Local(["mt"], [Table(Named("__eq", Func([], [Return(TRUE())])), Named("__len", Func([], [Return(Int(42))])), Named("__index", Func([], [Return(S("dflt"))])),
+                                   Named("__newindex", Func([], [])))]),
+              Local(["a", "b"], [Call(V("setmetatable"), Table(Int(1)), V("mt")), Call(V("setmetatable"), Table(), V("mt"))]),
+              Assign([Dot(V("a"), "k")], [Int(1)]), CallStat(Call(V("rawset"), V("b"), S("k"), Int(2))),
+              Emit(EQ(V("a"), V("b")), Call(V("rawequal"), V("a"), V("b")), LenOp(V("a")), Call(V("rawlen"), V("a")), Dot(V("a"), "k"), Call(V("rawget"), V("a"), S("k")), Dot(V("b"), "k"),
+                   Bin("~=", V("a"), V("b")), EQ(V("a"), V("a")))])
+    # Lua 5.4: __le does not fall back on __lt; a false field is present (no __index / __newindex); 1 and "1" are different keys
+    P.append([Local(["a"], [Call(V("setmetatable"), Table(), Table(Named("__lt", Func([], [Return(TRUE())]))))]),
+              Emit(Bin("<", V("a"), V("a")), Bin(">", V("a"), Int(1)), Call(V("pcall"), Func([], [Return(Bin("<=", V("a"), V("a")))])))])
+    P.append([Local(["log"], [Table()]),
+              Local(["t"], [Call(V("setmetatable"), Table(Named("f", FALSE())), Table(Named("__index", Func([], [Return(S("dflt"))])),
+                                                                                   Named("__newindex", Func(["t", "k", "v"], [Emit(S("ni"), V("k"), V("v"))]))))]),
+              Emit(Dot(V("t"), "f"), Dot(V("t"), "g")), Assign([Dot(V("t"), "f")], [Int(1)]), Assign([Dot(V("t"), "g")], [Int(2)]),
+              Emit(Dot(V("t"), "f"), Dot(V("t"), "g")), Assign([Dot(V("t"), "f")], [Nil()]), Assign([Dot(V("t"), "f")], [Int(3)]), Emit(Call(V("rawget"), V("t"), S("f")))])
+    P.append([Local(["t"], [Table()]), Assign([Index(V("t"), Int(1)), Index(V("t"), S("1"))], [S("int"), S("str")]),
+              Emit(Index(V("t"), Int(1)), Index(V("t"), S("1")), LenOp(V("t")), Index(V("t"), Bin("+", S("0"), Int(1))), Index(V("t"), Bin("..", Int(1), S(""))))])
+    return [("misc", Block(p)) for p in P]
+
+
 # --------------------------------------------------------------------------
 # random programs from the whole modelled grammar, under a discipline that keeps them inside what the manual
 # determines: bounded loops, small integers, `#` only on sequences, and at most one call with side effects per
@@ -1648,7 +1828,8 @@ def families(tier):
     big = tier == "thorough"
     fams = [("closure_loops", fam_closure_loops()), ("adjust", fam_adjust(3 if big else 2)), ("varargs", fam_varargs()),
             ("control", fam_control()), ("methods", fam_methods()), ("metaops", fam_metaops(big)), ("metaindex", fam_metaindex()),
-            ("fornum", fam_fornum()), ("logic", fam_logic()), ("errors", fam_errors())]
+            ("fornum", fam_fornum()), ("logic", fam_logic()), ("errors", fam_errors()),
+            ("scalars", fam_scalars()), ("pressure", fam_pressure()), ("misc", fam_misc())]
     # the sizes follow from the grammar definitions (products of the alternatives, minus the excluded combinations)
     nat = 8
     no = len(META_OPERANDS_BIG if big else META_OPERANDS)
@@ -1661,6 +1842,7 @@ def families(tier):
         "metaops": 12 * no * no + 2 * no,
         "metaindex": 18 + 12 + 8 + 2 + 24 + 1 + 3,
         "fornum": 3 * 4 * 5, "logic": 7 * 7 * 2 * 3, "errors": 26 * 8 + 6,
+        "scalars": 6 * 4 * 2 * 2 + 8 * 8 + (5 * 5 * 8 - 2 * 5), "pressure": 4 * 3 - 1 + 2 * 2, "misc": 22,
     }
     for name, items in fams:
         if len(items) != expected[name]:
@@ -1670,7 +1852,7 @@ def families(tier):
 
 TIERS = {
     "quick": dict(cfg="LuaCoreQ.cfg", K=2, nrandom=1500, budget=40),
-    "thorough": dict(cfg="LuaCoreT.cfg", K=4, nrandom=20000, budget=90),
+    "thorough": dict(cfg="LuaCoreT.cfg", K=4, nrandom=30000, budget=90),
 }
 
 
@@ -1699,7 +1881,7 @@ def run(prop, tier, corrupt=False, workers=None):
     log("[%s] TLC: %d states in %.1fs" % (prop, tlc.distinct, tlc.wall))
     cov.update(states=tlc.distinct, transitions=tlc.generated, tlc_wall_s=round(tlc.wall, 1), programs=len(progs),
                enumerated=enumerated, random_programs=par["nrandom"], renderings_per_program=K, exhaustive=True,
-               exhaustive_note="the seven sub-grammars are enumerated completely (sizes checked against the grammar definitions); random programs are samples")
+               exhaustive_note="every sub-grammar listed under `enumerated` is enumerated completely (sizes checked against the grammar definitions); random programs are samples")
     # programs the specification does not decide are generator errors, never verdicts
     undecided = {}
     judged = []
